@@ -12,6 +12,9 @@ import Gotree.Lemmas.C13NexTr2
 import Gotree.Lemmas.C13Ex
 import Gotree.Lemmas.C13C01
 import Gotree.Lemmas.C13C01Stream
+import Gotree.Lemmas.C13Chunks
+import Gotree.Lemmas.C13Layout
+import Gotree.Lemmas.C13Taxa
 
 namespace Gotree.C13
 open Gotree
@@ -27,6 +30,13 @@ theorem multi_no_skip (C : NewickCodec) (doc : Txt) :
     readMultiNewick C doc = deliver C (tail doc) (chunks doc) 0 := by
   unfold readMultiNewick chunks tail
   exact multiGo_eq_deliver C _ [] 0
+
+/-- The whole-line model is exact whatever way `bufio.Reader.ReadLine` cuts over-long lines into
+    `isPrefix` chunks: the loop of ReadUntilSemiColon / ReadMultiTrees transcribed on the chunk stream
+    (`multiGoC`) gives the records of the model the driver runs, for every chunking of every line. -/
+theorem readline_chunking_irrelevant (C : NewickCodec) (doc : Txt) (stream : List (Txt × Bool))
+    (h : IsChunkStream (splitLines doc) stream) : multiGoC C stream [] 0 = readMultiNewick C doc :=
+  multiGoC_eq C (splitLines doc) stream h [] 0
 
 theorem write_line (C : NewickCodec) (L : NewickLaws C) (t : T) (h : L.wf t = true) :
     oneLine (C.write t) ∧ lastNonBlank (C.write t) = ';' := by
@@ -109,6 +119,48 @@ theorem multi_unterminated_pinned_fails :
     (multiGoPinned exCodec (splitLines (exText ++ "\n(c,d".toList)) [] 0).map (fun r => (r.id, r.out.isOk)) = [(0, true)] ∧
     (readMultiNewick exCodec (exText ++ "\n(c,d".toList)).map (fun r => (r.id, r.out.isOk)) = [(0, true), (1, false)] := by
   decide +kernel
+
+/-- `multi_delivers_all` with a free layout: each tree may be preceded by empty and blank-only lines
+    and by blanks, cut anywhere into several lines, followed by blanks (`ItemOK`); the last line of the
+    file may lack its line end (`final = false`).  Every tree is delivered, in order, identifiers
+    0, 1, 2, … (needs the two stream laws of the parser: `NewickStreamLaws`, theorems for C01's model). -/
+theorem multi_delivers_all_layout (C : NewickCodec) (L : NewickStreamLaws C) (items : List (T × List Txt))
+    (hne : items ≠ []) (hw : ∀ it ∈ items, L.wf it.1 = true) (hi : ∀ it ∈ items, ItemOK C it.1 it.2)
+    (doc : Txt)
+    (hdoc : doc = unlines (items.flatMap (·.2)) ∨
+      ∃ init l, items.flatMap (·.2) = init ++ [l] ∧ l ≠ [] ∧ doc = unlines init ++ l) :
+    readMultiNewick C doc = recsOfTrees (items.map fun it => L.norm it.1) 0 := by
+  have hlines : ∀ l ∈ items.flatMap (·.2), oneLine l := by
+    intro l hl
+    obtain ⟨it, hit, hl'⟩ := List.mem_flatMap.1 hl
+    exact (hi it hit).oneLine l hl'
+  have hsplit : splitLines doc = items.flatMap (·.2) := by
+    rcases hdoc with rfl | ⟨init, l, he, hl, rfl⟩
+    · exact splitLines_unlines _ hlines
+    · rw [he]
+      apply splitLines_noFinal init l
+      · intro x hx; exact hlines x (by rw [he]; simp [hx])
+      · exact (hlines l (by rw [he]; simp)).1
+      · exact hl
+  obtain ⟨cs, h1, h2, h3, h4⟩ := chunks_items C L.toNewickLaws items hw hi
+  rw [multi_no_skip]
+  unfold chunks tail
+  rw [hsplit, h1, h2]
+  apply deliver_ok
+  · apply List.ext_getElem
+    · simp [h3]
+    · intro i hi1 hi2
+      have hi' : i < items.length := by simpa [h3] using hi1
+      have hc : i < cs.length := by simpa using hi1
+      obtain ⟨ws₀, body, bl, hb, hcs, hws⟩ := h4 i hi' hc
+      simp only [List.getElem_map, hcs]
+      exact parse_chunk C L (items[i]).1 (hw _ (List.getElem_mem hi')) ws₀ body bl hb hws
+  · left
+    intro hc
+    apply hne
+    have : cs.length = 0 := by rw [hc]; rfl
+    rw [h3] at this
+    exact List.length_eq_zero_iff.1 this
 
 /- ## first tree = head of the multi-tree reader -/
 
@@ -320,19 +372,26 @@ theorem nexus_chain_translate (E : Env) (L : NewickLaws E.C) (ts : List T)
   exact ⟨_, by simp [readMulti, hd], hr⟩
 
 /-- `nexus_roundtrip` WITH a translate table, from conditions on the input trees only (character
-    level for the document): trees on one common tip set, tip labels legal and pairwise different,
-    node names pairwise different and — when not a tip — not a decimal numeral (`namesOK`); `M` is the
-    map the writer builds (tips of the first tree, numbered from 0 in order of appearance), the trees
-    it writes are `renameT M t`, whose Newick texts must round-trip through the codec (`L.wf`) and
-    survive the Nexus lexer (`treeTextOK`).  Then reading the document delivers every tree, in order,
-    with its original names, equal in shape, names, lengths and supports. -/
-theorem nexus_roundtrip_translate (C : NewickCodec) (L : NewickLaws C) (t0 : T) (rest : List T)
+    level for the document): trees on one common tip set, tip labels legal and pairwise different, a
+    name that is not a tip name is not a decimal numeral; `M` is the map the writer builds (tips of
+    the first tree, numbered from 0 in order of appearance), the trees it writes are `renameT M t`,
+    whose Newick texts must round-trip through the codec (`L.wf`) and survive the Nexus lexer
+    (`treeTextOK`).  Then reading the document delivers every tree, in order, with its original names,
+    equal in shape, names, lengths and supports.
+
+    PARTIAL: the hypothesis `innerNamesDistinct` (non-empty node names pairwise different) is the
+    excluded region.  The full statement — the same without `hd` — is FALSE for the code as it is:
+    see `nexus_translate_repeated_inner_name_fails` (open finding F60). -/
+theorem nexus_roundtrip_translate_partial (C : NewickCodec) (L : NewickLaws C) (t0 : T) (rest : List T)
     (htips : ∀ t ∈ t0 :: rest, tipsOK t = true) (hst : sameTaxa (t0 :: rest) = true)
-    (hn : ∀ t ∈ t0 :: rest, namesOK t = true)
+    (hd : ∀ t ∈ t0 :: rest, innerNamesDistinct t = true)
+    (hnum : ∀ t ∈ t0 :: rest, nonTipNamesNotNumeral t = true)
     (hw : ∀ t ∈ t0 :: rest, L.wf (renameT (mapFrom 0 t0.tipNames) t) = true)
     (hs : ∀ t ∈ t0 :: rest, treeTextOK (C.write (renameT (mapFrom 0 t0.tipNames) t)) = true) :
     ∃ d, Nex.parse C (writeNexus C true (enumFrom 0 (t0 :: rest))) = .ok d ∧
       recsAre (t0 :: rest) (recsOfTrees (d.map (·.2)) 0) 0 = true := by
+  have hn : ∀ t ∈ t0 :: rest, namesOK t = true := fun t ht => by
+    simp only [namesOK, Bool.and_eq_true]; exact ⟨hd t ht, hnum t ht⟩
   obtain ⟨h1, h2⟩ := nexusTrState_ok t0 rest htips hst hn
   have hmem : ∀ (i : Nat) (l : List T) (it : Nat × T), it ∈ enumFrom i l → it.2 ∈ l := by
     intro i l
@@ -353,6 +412,16 @@ theorem nexus_roundtrip_translate (C : NewickCodec) (L : NewickLaws C) (t0 : T) 
     rw [h2] at hw'
     obtain ⟨it, hit, rfl⟩ := List.mem_map.1 hw'
     exact hs it.2 (hmem 0 _ it hit)
+
+/-- The taxa block of `WriteNexus`'s document, as the oracle `taxaBlockOK` reads it back from the text
+    (with or without translate table; the trees may be on different tip sets): TAXLABELS names every
+    tip of every tree exactly once and NTAX is their number. -/
+theorem nexus_taxa_block (C : NewickCodec) (L : NewickLaws C) (ts : List T)
+    (hn : (stateLoop (enumFrom 0 ts) {}).map.length ≤ 9223372036854775807)
+    (hlab : ∀ t ∈ ts, t.tipNames.all labelOK = true)
+    (hw : ∀ it ∈ enumFrom 0 ts, L.wf it.2 = true) :
+    taxaBlockOK ts (writeNexus C false (enumFrom 0 ts)) = true :=
+  taxaBlock_written C L false ts hn hlab (by simpa using hw) (by intro h; cases h)
 
 /- ## Composition with property C01: its verified Newick model as the codec
 
@@ -393,6 +462,27 @@ theorem nexus_roundtrip_translate_c01 (F : Newick.FloatCodec) (ts : List T)
 theorem first_eq_head_c01 (F : Newick.FloatCodec) (N : NumCodec) (d : Doc) (h : firstOwnLines d = true) :
     readFirst ⟨c01Codec F, N⟩ d = (readMulti ⟨c01Codec F, N⟩ d).map headOut :=
   first_eq_head ⟨c01Codec F, N⟩ (c01StreamLaws F) d h
+
+/-- the layout theorem for C01's Newick model: no assumption on the Newick code -/
+theorem multi_delivers_all_layout_c01 (F : Newick.FloatCodec) (items : List (T × List Txt))
+    (hne : items ≠ []) (hw : ∀ it ∈ items, (c01Laws F).wf it.1 = true)
+    (hi : ∀ it ∈ items, ItemOK (c01Codec F) it.1 it.2) :
+    readMultiNewick (c01Codec F) (unlines (items.flatMap (·.2))) = recsOfTrees (items.map fun it => it.1.normIds) 0 :=
+  multi_delivers_all_layout (c01Codec F) (c01StreamLaws F) items hne hw hi _ (Or.inl rfl)
+
+/-- The region `innerNamesDistinct` excludes (open finding F60), as a negative theorem on a concrete witness (C01's Newick model,
+    its lawful codec `ratCodec`): for `((a:1,b:1)X:1,(c:1,d:1)X:1,e:1);` — two inner nodes named X, tips
+    and labels fine — the document written WITH a translate table is rejected by the reader
+    (`tree.Rename` indexes every named node and refuses the repeated name; the writer ignores that error
+    and writes the tree unrenamed under a TRANSLATE table), while without translate table the same tree
+    comes back unchanged. -/
+theorem nexus_translate_repeated_inner_name_fails :
+    (Nex.parse (c01Codec Newick.ratCodec) (writeNexus (c01Codec Newick.ratCodec) true [(0, dupTree)])).isErr = true ∧
+    (match Nex.parse (c01Codec Newick.ratCodec) (writeNexus (c01Codec Newick.ratCodec) false [(0, dupTree)]) with
+     | .ok [(_, t)] => sameKept t dupTree
+     | _ => false) = true ∧
+    tipsOK dupTree = true ∧ nonTipNamesNotNumeral dupTree = true ∧ innerNamesDistinct dupTree = false := by
+  decide +kernel
 
 /- ## the hypotheses are satisfiable on a non-trivial tree
 
@@ -440,14 +530,25 @@ example : ∃ d, Nex.parse exCodec (writeNexus exCodec false (enumFrom 0 [exTree
 example : (C01.WF01 Newick.ratCodec.isFloat Newick.ratCodec.dom exTree &&
     plainText (Newick.write Newick.ratCodec.toCodec exTree)) = true := by decide +kernel
 
-/-- nexus_roundtrip_translate: all hypotheses hold for `[exTree, exTree]` with C01's codec (`ratCodec`) -/
+/-- nexus_roundtrip_translate_partial: all hypotheses hold for `[exTree, exTree]` with C01's codec (`ratCodec`) -/
 example : ∃ d, Nex.parse (c01Codec Newick.ratCodec) (writeNexus (c01Codec Newick.ratCodec) true (enumFrom 0 [exTree, exTree])) = .ok d ∧
     recsAre [exTree, exTree] (recsOfTrees (d.map (·.2)) 0) 0 = true :=
-  nexus_roundtrip_translate (c01Codec Newick.ratCodec) (c01Laws Newick.ratCodec) exTree [exTree]
+  nexus_roundtrip_translate_partial (c01Codec Newick.ratCodec) (c01Laws Newick.ratCodec) exTree [exTree]
     (by intro t ht; simp at ht; subst ht; decide +kernel)
     (by decide +kernel)
     (by intro t ht; simp at ht; subst ht; decide +kernel)
     (by intro t ht; simp at ht; subst ht; decide +kernel)
     (by intro t ht; simp at ht; subst ht; decide +kernel)
+    (by intro t ht; simp at ht; subst ht; decide +kernel)
+
+/-- multi_delivers_all_layout: an empty line, a blank-only line, a leading blank, the tree wrapped
+    after a comma, a trailing blank -/
+example : ItemOK exCodec exTree ["".toList, "  ".toList, " (a:0.5,".toList, "(b:1,c:0)0.75,d); ".toList] where
+  oneLine := by
+    intro l hl
+    simp only [List.mem_cons, List.not_mem_nil, or_false] at hl
+    rcases hl with h | h | h | h <;> (subst h; exact ⟨by decide, by decide⟩)
+  shape := ⟨["".toList, "  ".toList, " (a:0.5,".toList], "(b:1,c:0)0.75,d)".toList, " ".toList, "   ".toList,
+    "(a:0.5,(b:1,c:0)0.75,d)".toList, by decide, by decide, by decide, by decide, by decide⟩
 
 end Gotree.C13
